@@ -113,6 +113,7 @@ func c27lineCol(text []byte, o int) (int, int) {
 
 type c27file struct {
 	base, size, line int
+	copied           bool   // SetSourceForContent was called
 	content          []byte // nil unless added by "content"
 	f                *etoken.File
 	sf               *token.File
@@ -246,7 +247,7 @@ func c27fsExec(f string, args []string) Result {
 		if args[1] == "1" {
 			ef.SetSourceForContent(text)
 		}
-		c27files = append(c27files, &c27file{base: ef.Base(), size: len(text), line: ln, content: text, f: ef, sf: sf})
+		c27files = append(c27files, &c27file{base: ef.Base(), size: len(text), line: ln, content: text, f: ef, sf: sf, copied: args[1] == "1"})
 		r := Result{Out: fmt.Sprintf("%s base=%d n=%d", name, ef.Base(), ef.LineCount()), Tags: []string{"content"}, Nontrivial: true}
 		if ef.LineCount() != sf.LineCount() {
 			r.Viol, r.Key = fmt.Sprintf("scanner recorded %d lines, SetLinesForContent %d", ef.LineCount(), sf.LineCount()), "scanner-line-table"
@@ -309,6 +310,40 @@ func c27fsExec(f string, args []string) Result {
 		want, how := c27specPos(p)
 		if pos != want {
 			r.Viol, r.Key = fmt.Sprintf("Source(%d) position %s, want %s (%s)", p, c27showPos(pos), c27showPos(want), how), "fileset-source-position"
+		}
+		// the text: the line of the content that holds p (empty when no source was recorded)
+		wantTxt := ""
+		if cf := c27find(p); cf != nil && cf.copied && p-cf.base < cf.size && want.IsValid() {
+			l, _ := c27lineCol(cf.content, p-cf.base)
+			wantTxt = strings.Split(string(cf.content), "\n")[l-1]
+			r.Tags = append(r.Tags, "src-text")
+		}
+		if txt != wantTxt && r.Viol == "" && (wantTxt != "" || c27find(p) == nil || !c27find(p).copied) {
+			r.Viol, r.Key = fmt.Sprintf("Source(%d) text %q, the line of the content is %q", p, txt, wantTxt), "fileset-source-text"
+		}
+		return r
+	case "fpos":
+		// File.PositionFor called directly on a file (also with a Pos outside it, or NoPos)
+		if len(args) != 2 {
+			break
+		}
+		i, _ := strconv.Atoi(args[0])
+		p, _ := strconv.Atoi(args[1])
+		if i < 0 || i >= len(c27files) {
+			return Result{Out: "nofile", Tags: []string{"fpos-nofile"}}
+		}
+		cf := c27files[i]
+		got := cf.f.PositionFor(token.Pos(p), false)
+		want := cf.sf.PositionFor(token.Pos(p), false)
+		if want.IsValid() {
+			want.Line += cf.line
+		}
+		r := Result{Out: c27showPos(got), Tags: []string{"fpos"}, Nontrivial: true}
+		if !want.IsValid() {
+			r.Tags = append(r.Tags, "fpos-invalid")
+		}
+		if got != want || cf.f.Position(token.Pos(p)) != want {
+			r.Viol, r.Key = fmt.Sprintf("File.PositionFor(%d) = %s, want %s (go/token shifted by %d)", p, c27showPos(got), c27showPos(want), cf.line), "file-position"
 		}
 		return r
 	}
@@ -770,6 +805,9 @@ func c27gen_(r *rand.Rand, tier string, emit func(string)) {
 					if (p+mask)%3 == 0 {
 						emit(fmt.Sprintf("file %d", p-1))
 					}
+					if (p+mask)%4 == 0 {
+						emit(fmt.Sprintf("fpos %d %d", (p+mask)%3, p-1))
+					}
 				}
 			}
 		}
@@ -861,8 +899,10 @@ func c27gen_(r *rand.Rand, tier string, emit func(string)) {
 				}
 			case k < 14:
 				emit(fmt.Sprintf("pos %d", pick()))
-			case k < 17:
+			case k < 16:
 				emit(fmt.Sprintf("file %d", pick()))
+			case k < 17:
+				emit(fmt.Sprintf("fpos %d %d", r.Intn(len(files)), pick()))
 			default:
 				emit(fmt.Sprintf("src %d", pick()))
 			}
